@@ -18,8 +18,8 @@ func init() {
 		switch kind {
 		case "bytes":
 			cfg.MkRoot = func(data []byte) blob.Blob { return blob.NewBytes(data) }
-		case "idb":
-			fatal("the idb adapter (indexeddb/idbblob) exists only under js/wasm; replay with: cd harness && VERIF_BLOB_REPLAY=<file> GOOS=js GOARCH=wasm go test -exec $(go env GOROOT)/misc/wasm/go_js_wasm_exec -run TestReplayFile -v ./blobad")
+		case "idb", "idbread":
+			fatal("the idb adapters (indexeddb/idbblob) exist only under js/wasm; replay with: cd harness && VERIF_BLOB_ADAPTER=" + kind + " VERIF_BLOB_REPLAY=<file> GOOS=js GOARCH=wasm go test -exec $(go env GOROOT)/misc/wasm/go_js_wasm_exec -run TestReplayFile -v ./blobad")
 		default:
 			fatal("unknown blob kind", kind)
 		}
